@@ -50,6 +50,7 @@ type NetCfg struct {
 	ChunkMode int `json:",omitempty"` // 0 whole packets, 1 random split, 2 byte-wise (small), 3 coalesce due packets
 	LatMaxUs  int `json:",omitempty"` // per-packet latency drawn from [LatMinUs, LatMaxUs]
 	LatMinUs  int `json:",omitempty"`
+	ZeroLat   bool `json:",omitempty"` // half of the client's packets reach the broker in the instant they are sent
 	Seed      uint64
 }
 
@@ -106,6 +107,7 @@ type Op struct {
 	WSMode     int     `json:",omitempty"` // websocket segmentation mode + 1 (0 = drawn from the network PRNG)
 	WSText     bool    `json:",omitempty"` // websocket: send text messages
 	StayOpen   bool    `json:",omitempty"` // do not close the connection after a failing CONNACK
+	CarryAcks  bool    `json:",omitempty"` // connect: acknowledgements held back on the previous connection are sent right behind CONNECT
 
 	// subscribe / unsubscribe
 	Subs    []mqttc.Sub `json:",omitempty"`
